@@ -17,6 +17,9 @@ RULES = {
     'C17.b': 'the connections counter is not re-read in a later critical section to write its mirror key '
              '(counter update and mirror must be one atomic step)',
     'C17.c': 'the decrement is a checked / saturating subtraction or is dominated by a > 0 test',
+    'C17.e': 'every update of the connections counter is atomic: made under the write lock of Database.connections, or by one atomic '
+             'read-modify-write call (fetch_add / fetch_sub / fetch_update / compare_exchange) — never a load followed by a store under a '
+             'shared lock',
     'C17.d': 'the mirror is written through the conflict-aware store (which notifies watchers)',
 }
 
@@ -33,16 +36,17 @@ def conn_fns(m):
         if b.locals[0] == 'usize':
             cnt = b
             continue
-        # classify by the arithmetic on the counter
+        # classify by the arithmetic on the counter (plain arithmetic under the write lock, or atomic operations)
         ops = set()
         for bl in b.blocks:
             for s in bl['s']:
                 if s['k'] == 'assign' and s['r']['k'] == 'bin':
                     ops.add(s['r']['op'])
         calls = {callee_decl(t) for _, t in b.calls()}
-        if any(o.startswith('Add') for o in ops) or 'std::num::saturating_add' in calls or 'std::num::checked_add' in calls:
+        leafs = {c.split('::')[-1] for c in calls}
+        if any(o.startswith('Add') for o in ops) or leafs & {'saturating_add', 'checked_add', 'wrapping_add', 'fetch_add'}:
             inc = b
-        if any(o.startswith('Sub') for o in ops) or any(c.endswith(('::saturating_sub', '::checked_sub', '::wrapping_sub')) for c in calls):
+        if any(o.startswith('Sub') for o in ops) or leafs & {'saturating_sub', 'checked_sub', 'wrapping_sub', 'fetch_sub'}:
             dec = b
     return inc, dec, cnt
 
@@ -72,7 +76,7 @@ def run(ck, m):
     # selection writes on SelectedDatabase.name
     sel = [ev for ev, kind, info in effs if kind in ('guarded-replace', 'store') and
            any(l == 'SelectedDatabase.name' for l, _ in info.get('locks', ())) and ev.frame.body.id == d.id]
-    ck.floor('C17.a', len(sel), 2, 'selection writes in the UseDb arm')
+    ck.floor('C17.a', len(sel), 1, 'selection writes in the UseDb arm')
 
     def calls_in_region(fn_ids, via_helpers=True):
         """blocks of the dispatcher (in the UseDb arm) that call one of fn_ids, directly or through a local helper"""
@@ -107,6 +111,15 @@ def run(ck, m):
               'the previous selection is decremented (and mirrored) before it is replaced' if dec_ok else
               'selection at %s replaces an earlier one without decrementing it: use-db twice leaks one connection' % d.loc(bi),
               d.loc(bi))
+    # the previous selection is given back only when it is really replaced: every decrement of the arm is followed, on every
+    # path, by a selection write (a refused use-db must leave the session counted where it is)
+    for x in decs:
+        followed = any(d.postdominates(ev.bi, x) for ev in sel)
+        ck.ob('C17.a', 'dispatcher', 'UseDb:decrement-only-when-reselecting', followed,
+              'the previous selection is decremented only on paths that go on to replace it' if followed else
+              'the decrement at %s is not followed by a selection write on every path: a use-db that is refused afterwards (wrong token) '
+              'has already given back the connection of the database the session stays in; the later disconnect decrements it again'
+              % d.loc(x), d.loc(x))
     # the helper that decrements the previous selection must do so only when there was one, and mirror it
     for bi in decs:
         n = callee(d.term(bi))
@@ -207,6 +220,20 @@ def run(ck, m):
     ck.ob('C17.c', short(dec.id), 'no-underflow', ok,
           'the decrement saturates / is checked' if ok else 'unchecked `- 1` on the usize counter inside its write lock',
           '%s:%s' % (dec.file, dec.line))
+    # ---- (e) ---------------------------------------------------------------------------
+    for fb in (inc, dec):
+        acq = [a for a in locks.acquisitions(fb) if 'Database.connections' in a.ids]
+        exclusive = bool(acq) and all(a.mode == 'W' for a in acq)
+        leafs = [callee_decl(t).split('::')[-1] for _, t in fb.calls() if callee_decl(t).startswith('std::sync::atomic::Atomic')]
+        rmw = [x for x in leafs if x in ('fetch_add', 'fetch_sub', 'fetch_update', 'compare_exchange', 'compare_exchange_weak', 'fetch_max', 'fetch_min')]
+        plain = [x for x in leafs if x in ('store', 'swap')]
+        oke = exclusive or (len(rmw) >= 1 and not plain)
+        ck.ob('C17.e', short(fb.id), 'counter-update-atomic', oke,
+              'the update runs under the write lock of Database.connections' if exclusive else
+              ('the update is a single atomic read-modify-write' if oke else
+               '%s updates the counter with %s while holding Database.connections only in shared mode: two sessions connecting / leaving at the '
+               'same time can overwrite each other\'s update and the count drifts for good' % (short(fb.id), leafs)),
+              '%s:%s' % (fb.file, fb.line))
     # ---- (d) ---------------------------------------------------------------------------
     from props import C03
     notif = False
